@@ -237,7 +237,7 @@ class RevolutePair:
     """two rigid bodies (or frame + rigid body) connected by a Revolute joint, both bodies initially unrotated, joint
     frame given by an integer quaternion; provides states on the joint manifold parametrised by the joint angle"""
 
-    def __init__(self, h, seed=0, axis=2, first="RB", angle0=0.0, extra=None):
+    def __init__(self, h, seed=0, axis=2, first="RB", angle0=0.0, extra=None, Pb0=None):
         from cardillo import System
         from cardillo.discrete import RigidBody, Frame
         from cardillo.constraints import Revolute
@@ -255,7 +255,9 @@ class RevolutePair:
             self.a = RigidBody(1.5, np.diag([1.0, 2.0, 3.0]), q0=np.concatenate([r_a0, e0]), name="a")
         else:
             self.a = Frame(r_OP=r_a0, name="a")
-        self.b = RigidBody(2.0, np.diag([2.0, 1.0, 1.5]), q0=np.concatenate([r_b0, e0]), name="b")
+        # Pb0: initial orientation of the second body (exact rational unit quaternion); state() then does not apply
+        self.Pb0 = Pb0
+        self.b = RigidBody(2.0, np.diag([2.0, 1.0, 1.5]), q0=np.concatenate([r_b0, e0 if Pb0 is None else Pb0]), name="b")
         self.B1 = self.r_J0 - r_a0
         self.B2 = self.r_J0 - r_b0
         self.r_a0 = r_a0
@@ -268,6 +270,7 @@ class RevolutePair:
     def state(self, prefix="", with_rate=True, concrete_orientation=False):
         """(t, q, u, phi, phid) with the joint closed at angle phi and relative rate phid; body a free"""
         from cardillo.math import Exp_SO3_quat, quatprod, cross3
+        assert self.Pb0 is None, "state() assumes initially unrotated bodies"
         h = self.h
         t = h.real(prefix + "t")
         phi = h.angle(prefix + "phi")
